@@ -57,7 +57,23 @@ def build(case):
         else:
             r = classes[c](data=[codec.dec_val(v) for v in vals])
         regs.append(r)
-        data.append(r)
+    route = case.get("route", "append")
+    if route == "append" or len(regs) < 3:
+        for r in regs:
+            data.append(r)
+    else:
+        # the same final sequence reached through insertions in the middle: the ends first, the
+        # inner registers after their predecessor, every second one first parked after the wrong
+        # neighbour and moved (add_after / add_before / remove on non-last positions)
+        data.append(regs[0])
+        data.append(regs[-1])
+        prev = regs[0]
+        for i, r in enumerate(regs[1:-1]):
+            if i % 2 == 0:
+                data.add_after(prev, r)  # after a register that is not the last one
+            else:
+                data.add_before(regs[-1], r)  # before the register that followed the previous insertion
+            prev = r
     return classes, RegisterFile(data=data), regs
 
 
@@ -214,7 +230,7 @@ def random_case(rng):
         for r in regs:
             if r[0] != 3:
                 r[1] = [None] * len(r[1])
-    return {"props": props, "regs": regs, "type": t}
+    return {"props": props, "regs": regs, "type": t, "route": rng.choice(["append", "append", "insertions"])}
 
 
 def corpus_cases():
